@@ -93,6 +93,19 @@ Theorem C16_cycle_rejected_at_link_time :
 Proof. exact run_cycle_rejected. Qed.
 Print Assumptions C16_cycle_rejected_at_link_time.
 
+(* histories that go on after rejected links (the caller catches the ValueError and adds further links): what the parser
+   holds in the end is acyclic and instantiate_classes finds an order for it — it never raises "Graph has cycles" for the
+   accepted set; C16_sources_before_targets / C16_order_respects_links apply to that set as to any accepted one. *)
+Theorem C16_accepted_set_acyclic_after_rejections :
+  forall fx cs ls, let a := fst (add_links_cont fx cs ls) in a = [] \/ acyclic (link_edges fx cs a).
+Proof. exact add_links_cont_acyclic. Qed.
+Print Assumptions C16_accepted_set_acyclic_after_rejections.
+
+Theorem C16_accepted_set_has_order_after_rejections :
+  forall fx cs ls, exists o, inst_order fx cs (fst (add_links_cont fx cs ls)) = Order o.
+Proof. exact add_links_cont_has_order. Qed.
+Print Assumptions C16_accepted_set_has_order_after_rejections.
+
 (* ==== 4. the whole statement on a finite space, decided by the kernel ================================================= *)
 
 (* Every layout of class groups / class-typed arguments (possibly nested two or three deep) constructing <= 3 objects,
@@ -132,6 +145,16 @@ Theorem C16_small_space_final_pass_targets :
     (case_ok nofix (decls_from 0 shs, ls) && case_ok_fixed (decls_from 0 shs, ls)) = true.
 Proof. exact small_space_sink_ok. Qed.
 Print Assumptions C16_small_space_final_pass_targets.
+
+(* histories with rejections: every 3-link sequence over the layouts with <= 2 constructed objects (25,120 cases, both
+   variants), every rejection caught and the remaining links still added: inside the guard (evaluated on the accepted
+   links) exactly the links that close a cycle between the objects are rejected and the final construction obeys the
+   accepted links. *)
+Theorem C16_small_space_histories_with_rejections :
+  forall shs ls, In shs layouts_upto2 -> In ls (link_seqs3 (components (decls_from 0 shs))) ->
+    (case_ok_cont nofix (decls_from 0 shs, ls) && case_ok_cont allfix (decls_from 0 shs, ls)) = true.
+Proof. exact small_space_cont_ok. Qed.
+Print Assumptions C16_small_space_histories_with_rejections.
 
 (* ==== 5. witnesses: hypotheses are satisfiable, findings refute the unguarded statement ================================ *)
 
@@ -204,6 +227,18 @@ Example C16_final_pass_target_example :
   run nofix ex_sink_ds ex_sink_ls = (OExc, []) /\ link_class nofix ex_sink_ds ex_sink_ls = 2%N /\
   In [ShGI; ShGN] layouts_sink /\ In ex_sink_ls (link_seqs_sink ex_sink_ds).
 Proof. vm_compute. repeat split; try reflexivity; repeat (try (left; reflexivity); right). Qed.
+
+(* a -> b.l0 accepted; b.at -> a.l1 closes a cycle: rejected (call 1); the caller goes on: b -fn-> c.l2 is accepted, and
+   instantiate_classes builds a, b, c with the two accepted links applied *)
+Definition ex_cont_ls : list link := [mk 0 [nm 0] [nm 1] false; mk 1 [nm 1; s_at] [nm 0] false; mk 2 [nm 1] [nm 2] true].
+Example C16_history_with_rejection_example :
+  run_cont allfix ex_cyc_ds ex_cont_ls
+  = ([1], (OOk, [ENew (nm 0) []; ENew (nm 1) [(0, VBase (BObj (nm 0)))]; ECall 2 [BObj (nm 1)];
+                 ENew (nm 2) [(2, VFn 2 [BObj (nm 1)])]])) /\
+  link_spec_cont_ok ex_cyc_ds ex_cont_ls [1] (snd (run_cont allfix ex_cyc_ds ex_cont_ls)) = true /\
+  (* had the rejected link stayed in the parser, the third call would be refused too: the spec does not accept that *)
+  link_spec_cont_ok ex_cyc_ds ex_cont_ls [1; 2] (OOk, [ENew (nm 0) []; ENew (nm 1) [(0, VBase (BObj (nm 0)))]; ENew (nm 2) []]) = false.
+Proof. vm_compute. auto. Qed.
 
 Example C16_small_space_nontrivial :
   length layouts_upto3 = 27 /\ length layouts_flat4 = 16 /\
